@@ -333,6 +333,7 @@ inductive Beh
   | hacc | happ (x : Str) | hpart (x : Str) | haccC (x : Str) | hrej (r : Str) | hrejU (r : Str)
   | hempty | hnull | hcnull | hcnullU | hcstr | hbadfield | hmal | htrunc | hstatus (code : Nat)
   | hconn | hrejsuf (x r : Str) | herrsuf (x : Str)
+  | hxlat (t v : Str) | hsub (t v : Str)
   deriving DecidableEq, Repr
 
 def Beh.reply (b : Beh) (c : Content) : HttpReply Content :=
@@ -358,12 +359,18 @@ def Beh.reply (b : Beh) (c : Content) : HttpReply Content :=
   | .herrsuf x =>                   -- transient / content-dependent failure: 500 for some contents only
     if x.isSuffixOf c.a then .status 500 (.parsed false [] true .absent)
     else .status 200 (.parsed false [] true .absent)
+  | .hxlat t v =>                   -- a translator: the ticket `t` becomes `v`, anything else is turned away
+    if c.a = t then .status 200 (.parsed false [] false (.obj ⟨v, c.b⟩))
+    else .status 200 (.parsed true (Str.ofString "no ticket") false .absent)
+  | .hsub t v =>                    -- `t` becomes `v`, anything else passes as it is
+    if c.a = t then .status 200 (.parsed false [] false (.obj ⟨v, c.b⟩))
+    else .status 200 (.parsed false [] true .absent)
   | _ => .connErr
 
 def Beh.isHttp : Beh → Bool
   | .hacc | .happ _ | .hpart _ | .haccC _ | .hrej _ | .hrejU _ | .hempty | .hnull | .hcnull
   | .hcnullU | .hcstr | .hbadfield | .hmal | .htrunc | .hstatus _ | .hconn | .hrejsuf _ _
-  | .herrsuf _ => true
+  | .herrsuf _ | .hxlat _ _ | .hsub _ _ => true
   | _ => false
 
 def Beh.handle (b : Beh) (c : Content) : Ret Content :=
